@@ -55,6 +55,8 @@ type ExploreResult struct {
 	AssertQ     int
 	FmtApprox   int
 	LocalSat    int
+	StandaloneQ, StandaloneOK int
+	StandaloneT time.Duration
 	WaitT, RunT time.Duration
 	LocalUnsat  int
 	Funcs       map[string]int
@@ -200,6 +202,9 @@ func Explore(p *Program, cfg ExploreConfig) *ExploreResult {
 		res.AssertQ += ex.AssertQ
 		res.FmtApprox += ex.fmtApprox
 		res.LocalSat += ex.localSat
+		res.StandaloneQ += ex.standaloneQ
+		res.StandaloneOK += ex.standaloneOK
+		res.StandaloneT += ex.standaloneT
 		res.LocalUnsat += ex.localUnsat
 		for k, v := range ex.funcs {
 			res.Funcs[k] += v
